@@ -189,3 +189,25 @@ def check_plot_hist(facts, chk, rule, tier):
     else:
         chk.ok(rule, key, CH + '::plot_hist', 'printed row i = (i+1, counts[i], mixture density at i+1, Error iff i+1 < cutoff else Coverage) for %d (table, parameters, cutoff) cases '
                'incl. cut-offs 0, 1, at and beyond the table end and parameters whose components never cross' % n, evals=n)
+
+
+def check_counter_width(facts, chk, rule, tier):
+    """the per-k-mer multiplicity counter and the histogram rows must not be narrower than 32 bits: read sets of the property's domain
+    (coverage up to 80x, low-complexity reads) give single split k-mers tens of thousands of occurrences; a 16-bit counter aborts
+    (debug profile) or wraps (release profile) there, and no bounded input family reaches that count"""
+    import re
+    key = rule + ':counter-width'
+    fields = {f['name']: f['ty'] for f in facts.adt(CH)['variants'][0]['fields']}
+    if 'kmer_dict' not in fields or 'counts' not in fields:
+        raise AnchorLost('CoverageHistogram fields are %s' % sorted(fields))
+    widths = {'u8': 8, 'u16': 16, 'u32': 32, 'u64': 64, 'u128': 128, 'usize': 64, 'i8': 8, 'i16': 16, 'i32': 32, 'i64': 64, 'isize': 64}
+    m1 = re.search(r"HashMap<[^,]+,\s*(\w+)", fields['kmer_dict'])
+    m2 = re.search(r"Vec<(\w+)", fields['counts'])
+    if not m1 or not m2 or m1.group(1) not in widths or m2.group(1) not in widths:
+        raise AnchorLost('counter types not recognised: kmer_dict %s, counts %s' % (fields['kmer_dict'], fields['counts']))
+    w1, w2 = widths[m1.group(1)], widths[m2.group(1)]
+    if w1 < 32 or w2 < 32:
+        chk.violation(rule, key, where=CH, detail='multiplicity counter %s (kmer_dict value) / histogram row %s (counts): narrower than 32 bits - a split k-mer seen more than %d times overflows it'
+                      % (m1.group(1), m2.group(1), (1 << min(w1, w2)) - 1))
+    else:
+        chk.ok(rule, key, CH, 'multiplicity counter %s, histogram rows %s: at least 32 bits' % (m1.group(1), m2.group(1)))
